@@ -148,6 +148,10 @@ func (pd *perRawBitData) appendBitString(bytes []byte, bitsLength uint64, extens
 	var lb, ub, sizeRange int64 = 0, -1, -1
 	if lowerBoundPtr != nil {
 		lb = *lowerBoundPtr
+		if lb > 0 && bitsLength < uint64(lb) {
+			err = fmt.Errorf("bitString Length is under lowerbound")
+			return
+		}
 		if upperBoundPtr != nil {
 			ub = *upperBoundPtr
 			if bitsLength <= uint64(ub) {
@@ -243,6 +247,9 @@ func (pd *perRawBitData) appendOctetString(bytes []byte, extensive bool, lowerBo
 	var lb, ub, sizeRange int64 = 0, -1, -1
 	if lowerBoundPtr != nil {
 		lb = *lowerBoundPtr
+		if lb > 0 && byteLen < uint64(lb) {
+			return fmt.Errorf("OctetString Length is under lowerbound")
+		}
 		if upperBoundPtr != nil {
 			ub = *upperBoundPtr
 			if byteLen <= uint64(ub) {
